@@ -178,7 +178,7 @@ func runConc(sc *ConcScript) *sim.Outcome {
 
 func init() { reg("C20transcripts", runConc); reg("C20race", runConc) }
 
-var concKinds = append([]string{"keys", "keys", "garbage", "garbage", "garbage", "errmsg", "send", "send", "sess", "smp", "ans", "pp"}, lifeKinds...)
+var concKinds = append([]string{"keys", "keys", "dup", "dup", "garbage", "garbage", "garbage", "errmsg", "send", "send", "sess", "smp", "ans", "pp"}, lifeKinds...)
 
 func genConc(rt *rapid.T, maxPairs, maxOps int) *ConcScript {
 	sc := &ConcScript{Yield: rapid.IntRange(1, 1<<20).Draw(rt, "yield")}
